@@ -274,7 +274,7 @@ struct Harness{
 			for(std::size_t i = 0; i != ne(a[0]); ++i) if(a[1 + i] >= ne(a[0])) return false;
 			return true;
 		}
-		if(op == "shuffle") return a.size() == 2 && slot(0);
+		if(op == "shuffle") return a.size() == 2 && slot(0) && ne(a[0]) >= 1;   // shark::shuffle on an empty range is undefined (weighted datasets)
 		if(op == "rbc") return a.size() == 2 && slot(0) && a[1] > 0 && ne(a[0]) >= 1;
 		if(op == "bin") return a.size() == 4 && slot(0) && slot(1);
 		if(op == "ovr") return a.size() == 3 && slot(0) && slot(1);
@@ -512,6 +512,7 @@ struct Harness{
 	}
 };
 
+#ifndef C03_NO_MAIN
 int main(int argc, char** argv){
 	std::string ty = argc > 1 ? argv[1] : "uint";
 	if(ty == "uint"){ Harness<unsigned int> h; return h.run(); }
@@ -525,3 +526,4 @@ int main(int argc, char** argv){
 	std::cerr << "unknown element type " << ty << std::endl;
 	return 2;
 }
+#endif
